@@ -4,6 +4,7 @@ CONSTANTS
   Sizes <- SAll
   Opts <- OPlain
   FlushOnWait = TRUE  FlushBeforeDirect = FALSE  ResetSlot = TRUE
+  Stall = FALSE  TimeoutSticky = TRUE
 SPECIFICATION Spec
-INVARIANTS TypeOK WholeInOrderOnePerQuery ReplyOptIsOwn NothingHeldWhileBlocked
+INVARIANTS TypeOK WholeInOrderOnePerQuery StreamEndsAtFailedWrite ReplyOptIsOwn NothingHeldWhileBlocked
 CHECK_DEADLOCK FALSE
